@@ -304,11 +304,17 @@ impl DhtHandler {
                 &&& (r.body is Error && r.body->Error_0.code == 202 ==> final(self).active_stores.expires@ == e0 && e0.len() >= 500)
                 // a refused announce (203 or 202) stores nothing: only pairs that were successfully announced are ever handed out
                 &&& (r.body is Error ==> forall|k: Key| #[trigger] e_has(final(self).active_stores.expires@, k) ==> e_has(old(self).active_stores.expires@, k)) }), // @C07.announce_stores_source_ip_with_port_or_refuses_202 @C05.announce_acknowledged_or_202_when_full
-            // ---- C17: every reply fits the 1500-byte receive buffer of its peer (transaction ids up to 32 bytes)
-            !old(self).read_only && message.transaction_id@.len() <= 32 && (message.body matches MessageBody::Request(Request::Ping(_))) ==> blen(reply(delta(old(tr).ev, final(tr).ev))) <= 1500, // @C17.ping_reply_fits_1500_bytes
-            !old(self).read_only && message.transaction_id@.len() <= 32 && (message.body matches MessageBody::Request(Request::FindNode(_))) ==> blen(reply(delta(old(tr).ev, final(tr).ev))) <= 1500, // @C17.find_node_reply_fits_1500_bytes
-            !old(self).read_only && message.transaction_id@.len() <= 32 && (message.body matches MessageBody::Request(Request::GetPeers(_))) ==> blen(reply(delta(old(tr).ev, final(tr).ev))) <= 1500, // @C17.get_peers_reply_fits_1500_bytes
-            !old(self).read_only && message.transaction_id@.len() <= 32 && (message.body matches MessageBody::Request(Request::AnnouncePeer(_))) ==> blen(reply(delta(old(tr).ev, final(tr).ev))) <= 1500, // @C17.announce_reply_fits_1500_bytes
+            // ---- C17: every reply fits the 1500-byte receive buffer of its peer, for every query that itself fit a 1500-byte buffer
+            !old(self).read_only && blen(message) <= 1500 && (message.body matches MessageBody::Request(Request::Ping(_))) ==> blen(reply(delta(old(tr).ev, final(tr).ev))) <= 1500, // @C17.ping_reply_fits_1500_bytes
+            !old(self).read_only && blen(message) <= 1500 && (message.body matches MessageBody::Request(Request::AnnouncePeer(_))) ==> blen(reply(delta(old(tr).ev, final(tr).ev))) <= 1500, // @C17.announce_reply_fits_1500_bytes
+            // find_node / get_peers replies are longer than the query (node lists, token, values) and echo its transaction id:
+            // (a) for ids of up to 32 bytes (and, get_peers, up to 800 bytes of compact peers = 100 IPv4 / 38 IPv6) they fit;
+            !old(self).read_only && message.transaction_id@.len() <= 32 && (message.body matches MessageBody::Request(Request::FindNode(_))) ==> blen(reply(delta(old(tr).ev, final(tr).ev))) <= 1500, // @C17.find_node_reply_fits_1500_bytes_for_ids_up_to_32_bytes
+            !old(self).read_only && message.transaction_id@.len() <= 32 && (message.body matches MessageBody::Request(Request::GetPeers(_)))
+                && values_len(reply(delta(old(tr).ev, final(tr).ev)).body->Response_0.values@) <= 800 ==> blen(reply(delta(old(tr).ev, final(tr).ev))) <= 1500, // @C17.get_peers_reply_fits_1500_bytes_for_ids_up_to_32_bytes_and_100_ipv4_or_38_ipv6_peers
+            // (b) the unconditional statements of the property (recorded known findings on the current tree: the id is echoed whole, `values` is not capped)
+            !old(self).read_only && blen(message) <= 1500 && (message.body matches MessageBody::Request(Request::FindNode(_))) ==> blen(reply(delta(old(tr).ev, final(tr).ev))) <= 1500, // @C17.find_node_reply_fits_1500_bytes
+            !old(self).read_only && blen(message) <= 1500 && (message.body matches MessageBody::Request(Request::GetPeers(_))) ==> blen(reply(delta(old(tr).ev, final(tr).ev))) <= 1500, // @C17.get_peers_reply_fits_1500_bytes
             // ---- C12: a response with a transaction id of the wrong length changes nothing
             message.body is Response && message.transaction_id@.len() != 8 ==> res is Err && final(tr).ev == old(tr).ev, // @C12.wrong_length_tid_rejected
             message.body is Response && message.transaction_id@.len() == 8 ==> ({
